@@ -304,6 +304,14 @@ fn fetch_and_compare(cx: &mut Ctx<'_>, server: &Path, g: &Path, h: &Path, path: 
             git::git(g, &["update-ref", name, new]);
         }
     }
+    if cx.client.shallow && c.proto != 2 && shallow_of(g).is_empty() && !shallow_of(h).is_empty() {
+        // separate, precisely described failure shape (tracked as a known finding): the absolute depth is not honoured over v0/v1
+        return Err(format!(
+            "shallow-depth-ignored-v1: depth 1 requested, gitoxide received the complete history and wrote no shallow file, git has shallow commits {:?} {}",
+            shallow_of(h),
+            here()
+        ));
+    }
     if cx.client.shallow && shallow_of(g) != shallow_of(h) {
         return Err(format!("shallow: shallow file {:?} but git has {:?} {}", shallow_of(g), shallow_of(h), here()));
     }
